@@ -448,12 +448,14 @@ PLANS["C12"] = dict(
           "re-signed with another secret / a prefix of the secret / another algorithm, algorithm-confusion and header-mismatch variants, alg none/None/missing/lower-case/non-string with and without "
           "signature, typ/cty/kid/whitespace header variants, 1/2/4/5 parts, empty parts, signature prefixes/extension/non-canonical trailing bits/padding, other schemes, no header, OPTIONS. "
           "Every case is driven through the real fang in front of a handler that records the payload it saw; a Python judge (hmac, hashlib, base64, json) decides accept/reject/either per case. "
+          "In addition 15 boundary probes per run (3 algorithms x exp / nbf / iat equal to the verification second, exp and nbf one second later): the worker waits for a clock tick, "
+          "sends the request, and reads the clock before and after; the observation counts only if both readings are the claim's second (exp == now must be refused, nbf == now and iat == now admitted). "
           "distinct_nontrivial = distinct (algorithm, mutation kind) pairs."),
     quick=[R("c12", "rel", 1_600, flags={"dump": "@SCRATCH"}, post="c12")],
     thorough=[R("c12", "rel", 24_000, flags={"dump": "@SCRATCH"}, post="c12"), R("c12", "asan", 2_000), R("c12", "dbg", 2_000)],
-    floors={"quick": {"evaluations": 300_000, "distinct": 100, "accepted": 5_000, "cases_judged_by_python": 300_000, "kind:substitution": 50_000, "kind:alg-confusion": 1_000, "kind:signature-prefix": 5_000},
+    floors={"quick": {"evaluations": 300_000, "distinct": 100, "accepted": 5_000, "cases_judged_by_python": 300_000, "kind:substitution": 50_000, "kind:alg-confusion": 1_000, "kind:signature-prefix": 5_000, "boundary:exp-relative-to-now": 3, "boundary:nbf-relative-to-now": 3},
             "thorough": {"evaluations": 4_000_000, "distinct": 100, "cases_judged_by_python": 3_000_000}},
-    assumptions=["the Python judge is the oracle; the worker's own judge (sha2/hmac crates) must not contradict it on any case", "time claims are generated >= 10 s away from the clock reading; "
+    assumptions=["the Python judge is the oracle; the worker's own judge (sha2/hmac crates) must not contradict it on any case", "time claims of the bulk cases are generated >= 10 s away from the clock reading (the boundary itself is covered by the 15 clock-bracketed probes); "
                  "cases for which the clock readings before and after the request give different verdicts count as 'either'",
                  "correctly signed tokens with unusual header fields (typ/cty not JWT), non-numeric claims or a non-object payload are 'either': the statement is silent"],
 )
@@ -785,20 +787,21 @@ META["C18"] = dict(
 
 PLANS["C15"] = dict(
     level="exploration",
-    rule=("generated applications assembled from a catalogue of 9 handler signatures (0-2 path params of integer/string type; Query, JSON, URLEncoded extractors over derived schemas with and "
+    rule=("generated applications assembled from a catalogue of 10 handler signatures (0-2 path params of integer/string type; Query, JSON, URLEncoded extractors over derived schemas with and "
           "without #[openapi(component)], nested components, the same component used by several operations; returns &str, String, JSON<T>, JSON<Vec<T>>, typed statuses Created/NoContent, "
           "Result<_, E> with documented error statuses), routes with several methods, nesting by mounts with static and param prefixes (param naming across mounts), openapi::Tag fangs, JWT / "
-          "BasicAuth fangs at root or on a mounted application; every 8th case adds routes with more template params than the handler takes. The document bytes of "
+          "BasicAuth fangs at root or on a mounted application; every 8th case adds routes with more template params than the handler takes; a rare tenth signature returns a second type that claims the component name `Item` with another shape - "
+          "next to any other user of `Item` the only acceptable outcome is a loud refusal at generation time, never a document. The document bytes of "
           "Ohkami::__openapi_document_bytes__ are judged by Python/jsonschema: JSON, OpenAPI 3.1, every schema position valid under Draft 2020-12, every $ref resolvable, every {p} a required path "
           "parameter in order, (path, method) pairs = registered pairs, per operation the declared path-param types, query parameters, request-body media type, response codes, security iff a "
           "guarding auth fang, tags, components; and one request built from each documented operation (template filled from declared parameter types, documented body media type and credentials) "
           "must reach exactly the registered handler. distinct_nontrivial = distinct (signature set, nesting size, auth placement vector)."),
     quick=[R("c15", "rel", 1_600, features=["openapi"], flags={"dump": "@SCRATCH"}, post="c15")],
     thorough=[R("c15", "rel", 40_000, features=["openapi"], flags={"dump": "@SCRATCH"}, post="c15"), R("c15", "dbg", 2_000, features=["openapi"], flags={"dump": "@SCRATCH"}, post="c15")],
-    floors={"quick": {"evaluations": 1_600, "distinct": 300, "documents_judged_by_python": 1_600, "operations": 3_000, "schemas_validated": 8_000, "refs_resolved": 2_000, "probes": 3_000,
+    floors={"quick": {"evaluations": 1_600, "distinct": 300, "documents_judged_by_python": 1_400, "operations": 3_000, "schemas_validated": 8_000, "refs_resolved": 2_000, "probes": 3_000,
                       "signature_used:0": 50, "signature_used:1": 50, "signature_used:2": 50, "signature_used:3": 50, "signature_used:4": 50, "signature_used:5": 50, "signature_used:6": 50,
-                      "signature_used:7": 50, "signature_used:8": 50},
-            "thorough": {"evaluations": 40_000, "documents_judged_by_python": 40_000}},
+                      "signature_used:7": 50, "signature_used:8": 50, "contradicting_components_refused": 10},
+            "thorough": {"evaluations": 40_000, "documents_judged_by_python": 36_000}},
     assumptions=["the expectations per signature (param types, query params, body media type, response codes) are written by hand in the catalogue table (engines/c15.rs SIGS)",
                  "at most one authentication fang guards a path (a probe request carries one Authorization header)", "Multipart and SSE signatures are not in the catalogue"],
 )
